@@ -44,14 +44,7 @@ pub trait NoDupView { spec fn no_duplicates_by_view(self) -> bool; }
 impl NoDupView for Seq<NameStr> {
     open spec fn no_duplicates_by_view(self) -> bool { forall|i: int, j: int| 0 <= i < j < self.len() ==> (#[trigger] self[i])@ != (#[trigger] self[j])@ }
 }
-// subtree vocabulary
-pub open spec fn in_sub(a: PathV, p: PathV) -> bool { a.len() <= p.len() && p.take(a.len() as int) == a }
 impl PathBuf {
-    // Path::starts_with is component-wise
-    #[verifier::external_body]
-    pub fn starts_with(&self, o: &PathBuf) -> (b: bool) ensures (self.abs_clean() && o.abs_clean()) ==> b == in_sub(o@, self@) { unimplemented!() }
-    #[verifier::external_body]
-    pub fn ne(&self, o: &PathBuf) -> (b: bool) ensures (self.abs_clean() && o.abs_clean()) ==> b == (self@ != o@) { unimplemented!() }
     // relative remainder of an absolute clean path below an absolute clean prefix (trim_prefix: unit path_helpers at string level)
     pub uninterp spec fn rel_names(&self) -> Seq<Name>;
     pub uninterp spec fn is_rel(&self) -> bool;
